@@ -1,5 +1,7 @@
 SPECIFICATION Spec
 CONSTANTS
+  TolNum = 0
+  TolDen = 1
   Scenes <- SceneSet
   MaxIter = 12
   MaxSteps = 30
